@@ -2003,14 +2003,14 @@ func runC16(c *Ctx) {
 	x.negZero()
 	nta := 30
 	if c.Thorough {
-		nta = 300
+		nta = 220
 	}
 	x.tierA(nta)
 
 	nsig, per := 160, 16
 	nflt := 20000
 	if c.Thorough {
-		nsig, per, nflt = 3000, 24, 400000
+		nsig, per, nflt = 2600, 24, 400000
 	}
 	x.floats(nflt)
 	nstr := 1500
